@@ -260,11 +260,11 @@ func resolveComputedFields(env *Environment, errorSink *validation.ErrorSink) *E
 			for _, f := range target.ComputedFields {
 				if f.Name == t.Member {
 					innerContext := context
-					if target != context.Record {
-						// we're accessing a computed field on a different record type
+					if target != context.Record || len(context.Variables) > 0 {
+						// the computed field is resolved in its own record, and the variables declared
+						// by our switch cases are not in scope in it (not in our own record either)
 						updatedContext := *context
 						updatedContext.Record = target
-						// the variables declared by our switch cases are not in scope in that record
 						updatedContext.Variables = nil
 						innerContext = &updatedContext
 					}
